@@ -10,7 +10,7 @@ Not decided: which shapes geometrically enclose a tag (can_fit's float test)."""
 import re
 
 from ..common import guards, short, where
-from ..exprs import is_const, inline_calls, simplify, mentions_deep, subst_closure, closure_of, format_parts, mentions, strip
+from ..exprs import bool_function, is_const, inline_calls, simplify, mentions_deep, subst_closure, closure_of, format_parts, mentions, strip
 from ..grammar import GrammarError, load_parser_module
 from ..charset import Unknown
 from ..mirlib import Expr, Program, expr_str
@@ -328,7 +328,80 @@ def run(run):
                         "class-list extension and enclosed-text push are not the two exclusive branches of `as_css_tag().is_empty()` under can_fit (guards: %r / %r)" % (ge, gp))
         else:
             run.bad("C16.L4", "tag-shape", where(b), "expected one css_tag.extend and one enclosing.push in enclose_deep_first (found %d/%d)" % (len(ext), len(psh)))
-    run.assume("can_fit decides geometric enclosure with float arithmetic; not decided here")
+    # ---------------- L5 "inside" = bounding box inside bounding box
+    l5(run)
+    run.assume("the float comparisons of can_fit are exact on the values compared (no tolerance); what bounds() returns for each shape is C12's/C05's matter")
+
+
+def l5(run):
+    """`Fragment::can_fit(self, other)` is the statement's test "lies inside the bounding box of the shape": the four
+    coordinate-wise comparisons between `self.bounds()` and `other.bounds()`, inclusive, and nothing else.  Decided as
+    a boolean function over the comparisons the body branches on (helpers inlined except `bounds()` itself), so the
+    order of the conjuncts, early returns or a helper in between do not matter; an inset, a tolerance or a shape-dependent
+    variant of the box is not one of the four comparisons and is reported."""
+    prog = run.prog
+    fc = [p for p in prog.bodies if p.endswith("fragment::Fragment::can_fit")]
+    tc = [p for p in prog.bodies if p.endswith("fragment_tree::FragmentTree::can_fit")]
+    if len(fc) != 1 or len(tc) != 1:
+        run.missing("C16.L5", "Fragment::can_fit / FragmentTree::can_fit")
+        return
+    r = [strip(simplify(x)) for x in Expr(prog, tc[0]).returns()]
+    ok = len(r) == 1 and r[0][0] == "call" and r[0][1] == fc[0] and \
+        [strip(a) for a in r[0][2]] == [("param", 1, ("fragment", "fragment")), ("param", 2, ("fragment", "fragment"))]
+    if ok:
+        run.ok("C16.L5", "FragmentTree::can_fit = self.fragment.can_fit(other.fragment)", where(prog.bodies[tc[0]]))
+    else:
+        run.bad("C16.L5", "tree-can-fit", where(prog.bodies[tc[0]]), "FragmentTree::can_fit is `%s`, not the shape's can_fit on the two fragments" % (expr_str(r[0])[:120] if r else "?"))
+
+    def coord(e):
+        """(who, corner, axis) when e is `bounds(param who).<corner>[.0 ..].<x|y>` through any Deref calls"""
+        fields = []
+        e = strip(e)
+        for _ in range(12):
+            if e[0] == "field":
+                fields = list(e[2]) + fields
+                e = strip(e[1])
+            elif e[0] == "call" and re.search(r"Deref(<.*>)?>?::deref$|Deref for .*>::deref$", e[1]) and e[2]:
+                e = strip(e[2][0])
+            else:
+                break
+        if e[0] != "call" or not e[1].endswith("Bounds>::bounds") or len(e[2]) != 1:
+            return None
+        who = strip(e[2][0])
+        if who[0] != "param" or who[1] not in (1, 2) or who[2] != ():
+            return None
+        if len(fields) < 2 or fields[0] not in ("0", "1") or fields[-1] not in ("x", "y") or any(f not in ("0", "coords") for f in fields[1:-1]):
+            return None
+        return (who[1], fields[0], fields[-1])
+
+    FLIP = {"Le": "Ge", "Ge": "Le", "Lt": "Gt", "Gt": "Lt"}
+
+    def atom(c):
+        if c[0] != "bin" or c[1] not in FLIP:
+            return None
+        a, b = coord(c[2]), coord(c[3])
+        if a is None or b is None or a[0] == b[0] or a[1:] != b[1:]:
+            return None
+        op = c[1]
+        if a[0] == 2:
+            a, b, op = b, a, FLIP[op]
+        # the strict comparisons are the complements of the inclusive ones (coordinates are not NaN: C01.R5)
+        if op == "Lt":
+            return ("not", "Ge:%s.%s" % (a[1], a[2]))
+        if op == "Gt":
+            return ("not", "Le:%s.%s" % (a[1], a[2]))
+        return "%s:%s.%s" % (op, a[1], a[2])
+
+    atoms, table = bool_function(prog, fc[0], atom, keep=r"Bounds>::bounds$")
+    want = ["Ge:1.x", "Ge:1.y", "Le:0.x", "Le:0.y"]
+    if atoms is None:
+        run.bad("C16.L5", "can-fit-not-box-containment", where(prog.bodies[fc[0]]),
+                "Fragment::can_fit is not the coordinate-wise comparison of self.bounds() with other.bounds(): %s" % table)
+    elif sorted(atoms) == want and all(v == all(k) for k, v in table.items()):
+        run.ok("C16.L5", "Fragment::can_fit = self.bounds() contains other.bounds() (4 inclusive comparisons, conjunction)", where(prog.bodies[fc[0]]))
+    else:
+        run.bad("C16.L5", "can-fit-not-box-containment", where(prog.bodies[fc[0]]),
+                "Fragment::can_fit decides on %s; expected the conjunction of self.tl.x <= other.tl.x, self.tl.y <= other.tl.y, self.br.x >= other.br.x, self.br.y >= other.br.y" % atoms)
 
 
 run_flow = run
